@@ -195,7 +195,7 @@ def gen_array():
         q(op, 3, 0, 0, 0, 'quick', 'literal null')
         q(op, 4, 0, 0, 0, 'quick', 'computed null')
         q(op, 5, 0, 0, 0, 'quick', 'literal number (not a collection)')
-        q(op, 6, 0, 0, 0, 'thorough', 'collection evaluation fails')
+        q(op, 6, 0, 0, 0, 'off', 'collection evaluation fails')
         q(op, 7, 0, 0, 0, 'thorough', 'computed boolean (not a collection)')
         q(op, 0, 2, 1, 3, 'thorough', 'literal array, second element expression fails')
         q(op, 1, 2, 3, 1, 'thorough', 'computed array, second predicate call fails')
@@ -222,8 +222,8 @@ def gen_array():
         mf(op, 1, 2, 3, 'quick')
         mf(op, 2, 0, 0, 'quick')
         mf(op, 3, 0, 0, 'quick')
-        mf(op, 4, 0, 0, 'thorough')
-        mf(op, 0, 0, 0, 'thorough')
+        mf(op, 4, 0, 0, 'off')
+        mf(op, 0, 0, 0, 'off')
         mf(op, 1, 2, 1, 'thorough')
         mf(op, 0, 3, 7, 'thorough')
     head, tail = s.split('//@GENERATED-MAPFILTER', 1)
